@@ -584,8 +584,19 @@ struct Explorer {
    // runs prefix (choices + the points they were recorded at), returns points of the whole execution
    bool run(const std::vector<uint8_t>& prefix, const std::vector<Point>& prefix_pts, std::vector<Point>& pts, bool count) {
       RunResult rr = run_child(body, prefix, &prefix_pts, false);
-      std::vector<uint8_t> full; size_t nf = findings->size();
+      std::vector<uint8_t> full; std::set<std::string> before; for (auto& kv : *findings) before.insert(kv.first);
+      std::vector<Point> first_pts(sh->pts, sh->pts + sh->n_points);
       harvest(name, rr, prefix, *st, *findings, full);
+      // a new kind of finding is only trusted if the SAME complete schedule shows it again (replay before report)
+      std::vector<std::string> fresh; for (auto& kv : *findings) if (!before.count(kv.first) && kv.first.compare(0, 8, "harness:") != 0) fresh.push_back(kv.first);
+      if (!fresh.empty() && count) {
+         Shared keep = *sh;                                   // the replay overwrites the shared record: keep this execution's
+         RunResult r2 = run_child(body, full, nullptr, false);
+         Stats s2; std::map<std::string, Finding> f2; std::vector<uint8_t> full2; harvest(name, r2, full, s2, f2, full2);
+         for (auto& sig : fresh) if (!f2.count(sig)) { Finding f = (*findings)[sig]; findings->erase(sig); (*findings)["harness:unstable-finding|" + sig] = Finding{"harness:unstable-finding|" + sig, "not reproduced when the same schedule was executed again: " + f.detail, f.schedule}; }
+         *sh = keep;
+      }
+      size_t nf = findings->size();
       pts.assign(sh->pts, sh->pts + sh->n_points);
       if (count) { ++st->executions; st->points += pts.size(); if (pts.size() > st->max_points) st->max_points = pts.size(); int p = preemptions(pts, pts.size()); ++st->by_preemptions[p > 7 ? 7 : p];
          if (st->sample_schedules.size() < 6 && (st->executions == 1 || (st->executions % 977) == 0)) st->sample_schedules.push_back(std::string(name) + ": " + schedule_text(full) + " -> " + sh->outcome); }
